@@ -167,8 +167,30 @@ class e2e_colrv0_picture:
     }
 
 
+def _add_grouped_reuse(rng, glyphs):
+    """a one-shape glyph, and a glyph whose opacity group holds a copy of that shape followed
+    by another shape (the shared outline is then used once directly and otherwise only from
+    inside groups)"""
+    vb = glyphs[0].viewbox
+    pts = e2e._poly(rng, vb)
+    other = e2e._poly(rng, vb)
+    base = 0xE200 + len(glyphs)
+    a = e2e.GlyphSpec(vb, [e2e.Shape(pts, e2e.Solid(e2e._rgb(rng)), 1.0)], (base,))
+    inner = [e2e.Shape(list(pts), e2e.Solid(e2e._rgb(rng)), 1.0), e2e.Shape(other, e2e.Solid(e2e._rgb(rng)), 1.0)]
+    if rng.random() < 0.3:
+        inner.reverse()
+    b = e2e.GlyphSpec(vb, [e2e.Group(0.5, inner)], (base + 1,))
+    pair = [a, b]
+    if rng.random() < 0.5:
+        pair.reverse()
+    glyphs.extend(pair)
+
+
 def _gen_glyf(rng):
-    return {"glyphs": e2e.gen_glyphset(rng, gradients=False, groups=False), "overrides": _cfg_variants(rng, "glyf")}
+    glyphs = e2e.gen_glyphset(rng, gradients=False, groups=rng.random() < 0.4)
+    if rng.random() < 0.3:
+        _add_grouped_reuse(rng, glyphs)
+    return {"glyphs": glyphs, "overrides": _cfg_variants(rng, "glyf")}
 
 
 def _placed_polygons(font, name):
@@ -243,6 +265,40 @@ class e2e_glyf_outlines:
 # ---------------------------------------------------------------------------- OT-SVG
 
 
+def _add_default_paint_donor(rng, glyphs):
+    """a shape with SVG's default paint (opaque black: no fill / opacity attribute at all)
+    followed, in the same glyph, by copies that all share one other paint"""
+    g = rng.choice(glyphs)
+    x, y, w, h = g.viewbox
+    ww, hh = max(6, int(w * 0.18)), max(6, int(h * 0.18))
+    x0, y0 = x + int(w * 0.05), y + int(h * 0.05)
+    pts = [(x0, y0), (x0 + ww, y0), (x0 + ww, y0 + hh), (x0, y0 + hh)]
+    g.items.insert(0, e2e.Shape(pts, e2e.Solid((0, 0, 0), 1.0), 1.0))
+    fill = rng.choice([e2e.Solid(e2e._rgb(rng), 1.0), e2e.Solid((0, 0, 0), 1.0)])
+    op = 1.0 if fill.rgb != (0, 0, 0) and rng.random() < 0.5 else 0.5
+    for k in range(rng.randint(1, 2)):
+        dx, dy = (k + 1) * (ww + 3), (k + 1) * 2
+        g.items.append(e2e.Shape([(px + dx, py + dy) for px, py in pts], e2e.Solid(fill.rgb, 1.0), op))
+
+
+def _add_same_gradient_in_other_documents(rng, glyphs):
+    """glyphs that share no outline (so they land in different OT-SVG documents) whose shapes
+    use one and the same userSpaceOnUse gradient; the second one first defines another
+    gradient, so that a gradient id carried over from the first document would name the wrong
+    definition (or none)"""
+    vb = glyphs[0].viewbox
+    x, y, w, h = vb
+    base = 0xE300 + len(glyphs)
+    stops = e2e._stops(rng)
+    mk = lambda: e2e.Linear((x + 0.1 * w, y + 0.2 * h), (x + 0.9 * w, y + 0.6 * h), list(stops), "userSpaceOnUse", None, "pad")
+    tri = [(x + int(0.2 * w), y + int(0.2 * h)), (x + int(0.8 * w), y + int(0.35 * h)), (x + int(0.3 * w), y + int(0.8 * h))]
+    quad = [(x + int(0.15 * w), y + int(0.5 * h)), (x + int(0.85 * w), y + int(0.45 * h)), (x + int(0.7 * w), y + int(0.9 * h)), (x + int(0.2 * w), y + int(0.8 * h))]
+    pent = [(x + int(0.5 * w), y + int(0.1 * h)), (x + int(0.9 * w), y + int(0.4 * h)), (x + int(0.75 * w), y + int(0.9 * h)), (x + int(0.25 * w), y + int(0.9 * h)), (x + int(0.1 * w), y + int(0.4 * h))]
+    other = e2e.Linear((x, y), (x + w, y), e2e._stops(rng), "userSpaceOnUse", None, "pad")
+    glyphs.append(e2e.GlyphSpec(vb, [e2e.Shape(tri, mk(), 1.0)], (base,)))
+    glyphs.append(e2e.GlyphSpec(vb, [e2e.Shape(pent, other, 1.0), e2e.Shape(quad, mk(), 1.0)], (base + 1,)))
+
+
 def _gen_otsvg(rng):
     fmt = rng.choice(["picosvg", "picosvg", "picosvgz", "untouchedsvg", "untouchedsvgz"])
     over_ = _cfg_variants(rng, fmt)
@@ -251,6 +307,10 @@ def _gen_otsvg(rng):
     glyphs = e2e.gen_glyphset(rng)
     if rng.random() < 0.25:
         _add_sibling_radials(rng, glyphs)
+    if rng.random() < 0.25:
+        _add_default_paint_donor(rng, glyphs)
+    if rng.random() < 0.2:
+        _add_same_gradient_in_other_documents(rng, glyphs)
     if rng.random() < 0.35:
         # glyph names that are prefixes of one another (a sequence and its leading
         # codepoint), in either input order
